@@ -835,7 +835,7 @@ def r28_rec_table(ctx):
                 txt = U(v)
                 if txt == "None":
                     continue
-                m = re.search(r"\['(\w+)'\]\)*$", txt)
+                m = re.search(r"(?:\[|\.get\()'(\w+)'[\])]\)*$", txt)
                 how = "?"
                 if isinstance(v, ast.Call):
                     how = U(v.func)
